@@ -1142,6 +1142,10 @@ func (x *Exec) havocPointeesOf(ptrT types.Type, env *Env, what string) {
 
 // assign stores v into the lvalue l (functional update of the root variable).
 func (x *Exec) assign(l ast.Expr, v Term, env *Env) {
+	if x.termMode && len(v.S) > 1<<17 {
+		// term-mode compilation cannot name intermediate values: give up before the term explodes
+		unsupported("term too large for term-mode compilation")
+	}
 	info := x.cx.info
 	switch l := l.(type) {
 	case *ast.Ident:
